@@ -285,7 +285,14 @@ def run(ctx, with_resize=True):
             fields = dict(zip(slots_agg[0].rv.j['fields'], slots_agg[0].rv.ops))
             mx = fan.resolve_operand(fields[r.MAX])
             sz = fan.resolve_operand(fields[r.SIZE])
-            ctx.ob('R01.8', 'semaphore starts with max_size permits', permits == mx, ctx.where(fb, sem_new[0].term.line),
+            # same origin (the configured limit, unmodified), however it is handed around (constructor parameters, locals)
+            def lim_origin(o):
+                s_ = sources(fan, o, deep=True)
+                return (any(x[0] == 'field' and x[1] == 'deadpool::managed::config::PoolConfig.max_size' for x in s_),
+                        sorted({str(x[1]) for x in s_ if x[0] in ('bin', 'call') or (x[0] == 'const' and not str(x[1]).startswith('fn'))}))
+            po, mo = lim_origin(sem_new[0].term.args[0]), lim_origin(fields[r.MAX])
+            same = permits == mx or (po[0] and mo[0] and not po[1] and not mo[1])
+            ctx.ob('R01.8', 'semaphore starts with max_size permits', same, ctx.where(fb, sem_new[0].term.line),
                    'Semaphore::new(%s) vs max_size: %s' % (permits, mx), construct='init-permits', sites=[permits, mx])
             ctx.ob('R01.8', 'size starts at 0', sz == '0_usize', ctx.where(fb, slots_agg[0].line), 'size: %s' % sz, construct='init-size')
 
